@@ -280,8 +280,7 @@ def r3_in_place_gated(ctx, P, D):
     ctx.floor(R, "upward in-place grow sites checked for align_fits", n_grow_align, 1)
 
 
-def r3b_is_last_exact(ctx, P):
-    R = "C01.R3"
+def r3b_is_last_exact(ctx, P, R="C01.R3"):
     b = P.find_body("allocator_impl::is_last")
     if not ctx.need(b is not None, R, "allocator_impl::is_last"):
         return
@@ -412,6 +411,11 @@ def run(ctx, progs):
         r6r7_primitives(ctx, P)
         from . import c10
         c10.r1_min_aligned(ctx, P, D, R="C01.R8")
+        from . import c16, c13, c18, c10 as _c10
+        c16.r1_partitions(ctx, P, R="C01.R9")
+        c13.r3_reclaim_boundary(ctx, P, D, R="C01.R10")
+        c18.r4_conversions(ctx, P, R="C01.R11")
+        _c10.r1d_aligner_direction(ctx, P, D, R="C01.R12")
     ctx.config = None
 
 
